@@ -1,5 +1,5 @@
 from .base_array import base_array
-from .composite_base import _composite_base
+from .composite_base import _composite_base, as_bytes
 from .exception import ProphyError
 from .scalar import enum
 from .six import repr_bytes, long
@@ -79,7 +79,7 @@ class struct(_composite_base):
         return data
 
     def decode(self, data, endianness):
-        return self._decode_impl(data, 0, endianness, terminal=True)
+        return self._decode_impl(as_bytes(data), 0, endianness, terminal=True)
 
     def _decode_impl(self, data, pos, endianness, terminal):
         len_hints = {}
@@ -159,7 +159,7 @@ class union(_composite_base):
         return (discriminator_bytes + body_bytes).ljust(self._SIZE, b'\x00')
 
     def decode(self, data, endianness):
-        return self._decode_impl(data, 0, endianness, terminal=True)
+        return self._decode_impl(as_bytes(data), 0, endianness, terminal=True)
 
     def _decode_impl(self, data, pos, endianness, terminal):
         disc, _ = self._discriminator_type._decode(data, pos, endianness)
